@@ -1,12 +1,154 @@
 (* C01 — Version comparison is a total preorder in every ecosystem.
-   Statements only; proofs live in Eco/<E>/VersionFacts.v. *)
-From Verif.Base Require Import Bytes Ord.
-From Verif.Eco.Cran Require Version VersionFacts.
+   Statements only; the proofs live in Eco/<E>/VersionFacts.v.
 
-(* [preorder_laws cmp a b c] is the property's wording: reflexive, swapping negates,
-   a<=b -> b<=c -> a<=c, strictly if either step is strict, and equal versions compare alike
-   against any third.  The codomain [comparison] is exactly {-1, 0, 1}. *)
+   [preorder_laws cmp a b c] (Base/Ord.v) is the property's wording: cmp a a = Eq; swapping the
+   operands negates the result; a<=b -> b<=c -> a<=c, strictly if either step is strict; and
+   Compare-equal versions compare alike against any third.  The codomain [comparison] is
+   exactly {-1, 0, 1}.  [cmp] is the model of the Compare method on parsed values, [parse] the
+   model of NewVersion; both are tied to the Go code by the V-layer correspondence streams.
+
+   Fifteen ecosystems: the laws hold on the WHOLE value type (a superset of the parser's
+   image).  alpine, gentoo: they hold for all parsed values (the parser's invariant is needed).
+   alpm: within each class of equal pkgrel presence (the property's sole exclusion).
+   maven: NOT transitive on parsed values (C01_maven_refuted, finding F-maven-order-cycle);
+   the laws hold on the two classes whose union is the complement of the finding's class. *)
+From Verif.Base Require Import Bytes Ord.
+From Verif.Eco Require Import VLayer.
+From Verif.Eco.Alpine Require OrdMore.
+From Verif.Eco.Alpine Require Version VersionFacts.
+From Verif.Eco.Alpm Require Version VersionFacts.
+From Verif.Eco.Apache Require Version VersionFacts.
+From Verif.Eco.Cargo Require Version VersionFacts.
+From Verif.Eco.Composer Require Version VersionFacts.
+From Verif.Eco.Conan Require Version VersionFacts.
+From Verif.Eco.Cran Require Version VersionFacts.
+From Verif.Eco.Debian Require Version VersionFacts.
+From Verif.Eco.Gentoo Require Version VersionFacts.
+From Verif.Eco.Github Require Version VersionFacts.
+From Verif.Eco.Golang Require Version VersionFacts.
+From Verif.Eco.Hex Require Version VersionFacts.
+From Verif.Eco.Mattermost Require Version VersionFacts.
+From Verif.Eco.Maven Require Version VersionFacts.
+From Verif.Eco.Npm Require Version VersionFacts.
+From Verif.Eco.Nuget Require Version VersionFacts.
+From Verif.Eco.Pypi Require Version VersionFacts.
+From Verif.Eco.Rpm Require Version VersionFacts.
+From Verif.Eco.Semver Require Version VersionFacts.
+
+Theorem C01_apache : forall a b c : Apache.Version.ver, preorder_laws Apache.Version.cmp a b c.
+Proof. exact (TP_laws _ _ Apache.VersionFacts.cmp_tp). Qed.
+Print Assumptions C01_apache.
+
+Theorem C01_cargo : forall a b c : Cargo.Version.ver, preorder_laws Cargo.Version.cmp a b c.
+Proof. exact (TP_laws _ _ Cargo.VersionFacts.cmp_tp). Qed.
+Print Assumptions C01_cargo.
+
+Theorem C01_composer : forall a b c : Composer.Version.ver, preorder_laws Composer.Version.cmp a b c.
+Proof. exact (TP_laws _ _ Composer.VersionFacts.cmp_tp). Qed.
+Print Assumptions C01_composer.
+
+Theorem C01_conan : forall a b c : Conan.Version.ver, preorder_laws Conan.Version.cmp a b c.
+Proof. exact (TP_laws _ _ Conan.VersionFacts.cmp_tp). Qed.
+Print Assumptions C01_conan.
 
 Theorem C01_cran : forall a b c : Cran.Version.ver, preorder_laws Cran.Version.cmp a b c.
 Proof. exact (TP_laws _ _ Cran.VersionFacts.cmp_tp). Qed.
 Print Assumptions C01_cran.
+
+Theorem C01_debian : forall a b c : Debian.Version.ver, preorder_laws Debian.Version.cmp a b c.
+Proof. exact (TP_laws _ _ Debian.VersionFacts.cmp_tp). Qed.
+Print Assumptions C01_debian.
+
+Theorem C01_github : forall a b c : Github.Version.ver, preorder_laws Github.Version.cmp a b c.
+Proof. exact (TP_laws _ _ Github.VersionFacts.cmp_tp). Qed.
+Print Assumptions C01_github.
+
+Theorem C01_golang : forall a b c : Golang.Version.ver, preorder_laws Golang.Version.cmp a b c.
+Proof. exact (TP_laws _ _ Golang.VersionFacts.cmp_tp). Qed.
+Print Assumptions C01_golang.
+
+Theorem C01_hex : forall a b c : Hex.Version.ver, preorder_laws Hex.Version.cmp a b c.
+Proof. exact (TP_laws _ _ Hex.VersionFacts.cmp_tp). Qed.
+Print Assumptions C01_hex.
+
+Theorem C01_mattermost : forall a b c : Mattermost.Version.ver, preorder_laws Mattermost.Version.cmp a b c.
+Proof. exact (TP_laws _ _ Mattermost.VersionFacts.cmp_tp). Qed.
+Print Assumptions C01_mattermost.
+
+Theorem C01_npm : forall a b c : Npm.Version.ver, preorder_laws Npm.Version.cmp a b c.
+Proof. exact (TP_laws _ _ Npm.VersionFacts.cmp_tp). Qed.
+Print Assumptions C01_npm.
+
+Theorem C01_nuget : forall a b c : Nuget.Version.ver, preorder_laws Nuget.Version.cmp a b c.
+Proof. exact (TP_laws _ _ Nuget.VersionFacts.cmp_tp). Qed.
+Print Assumptions C01_nuget.
+
+Theorem C01_pypi : forall a b c : Pypi.Version.ver, preorder_laws Pypi.Version.cmp a b c.
+Proof. exact (TP_laws _ _ Pypi.VersionFacts.cmp_tp). Qed.
+Print Assumptions C01_pypi.
+
+Theorem C01_rpm : forall a b c : Rpm.Version.ver, preorder_laws Rpm.Version.cmp a b c.
+Proof. exact (TP_laws _ _ Rpm.VersionFacts.cmp_tp). Qed.
+Print Assumptions C01_rpm.
+
+Theorem C01_semver : forall a b c : Semver.Version.ver, preorder_laws Semver.Version.cmp a b c.
+Proof. exact (TP_laws _ _ Semver.VersionFacts.cmp_tp). Qed.
+Print Assumptions C01_semver.
+
+(* alpine, gentoo: every triple of ACCEPTED strings *)
+Theorem C01_alpine : forall s1 s2 s3 v1 v2 v3,
+  Alpine.Version.parse s1 = Some v1 -> Alpine.Version.parse s2 = Some v2 -> Alpine.Version.parse s3 = Some v3 ->
+  preorder_laws Alpine.Version.cmp v1 v2 v3.
+Proof. exact Alpine.VersionFacts.cmp_laws. Qed.
+Print Assumptions C01_alpine.
+
+Theorem C01_gentoo : forall sa sb sc a b c,
+  Gentoo.Version.parse sa = Some a -> Gentoo.Version.parse sb = Some b -> Gentoo.Version.parse sc = Some c ->
+  preorder_laws Gentoo.Version.cmp a b c.
+Proof. exact Gentoo.VersionFacts.gentoo_c01. Qed.
+Print Assumptions C01_gentoo.
+
+(* alpm: triples that agree on the presence of a pkgrel *)
+Theorem C01_alpm : forall (has_pkgrel : bool) (a b c : Alpm.Version.ver),
+  Alpm.Version.c_has_pkgrel (v_core a) = has_pkgrel ->
+  Alpm.Version.c_has_pkgrel (v_core b) = has_pkgrel ->
+  Alpm.Version.c_has_pkgrel (v_core c) = has_pkgrel ->
+  preorder_laws Alpm.Version.cmp a b c.
+Proof.
+  intros h a b c Ha Hb Hc.
+  exact (OrdMore.TPO_laws _ _ _ (Alpm.VersionFacts.cmp_tp h) a b c Ha Hb Hc).
+Qed.
+Print Assumptions C01_alpm.
+
+(* maven: refuted in general; proved on the two classes outside the finding *)
+Theorem C01_maven_refuted :
+  exists a b c va vb vc,
+    a = $"1-foo" /\ b = $"1-5" /\ c = $"1-sp" /\
+    Maven.Version.parse a = Some va /\ Maven.Version.parse b = Some vb /\ Maven.Version.parse c = Some vc /\
+    Maven.Version.cmp va vb = Lt /\ Maven.Version.cmp vb vc = Lt /\ Maven.Version.cmp va vc = Gt.
+Proof. exact Maven.VersionFacts.cmp_not_transitive. Qed.
+Print Assumptions C01_maven_refuted.
+
+Theorem C01_maven_no_unknown_qualifier : forall a b c : Maven.Version.ver,
+  Maven.VersionFacts.no_unknown (v_core a) = true ->
+  Maven.VersionFacts.no_unknown (v_core b) = true ->
+  Maven.VersionFacts.no_unknown (v_core c) = true ->
+  preorder_laws Maven.Version.cmp a b c.
+Proof. intros a b c; exact (OrdMore.TPO_laws _ _ _ Maven.VersionFacts.cmp_tpo a b c). Qed.
+Print Assumptions C01_maven_no_unknown_qualifier.
+
+Theorem C01_maven_no_release_word_or_sp : forall a b c : Maven.Version.ver,
+  Maven.VersionFacts.no_release_sp (v_core a) = true ->
+  Maven.VersionFacts.no_release_sp (v_core b) = true ->
+  Maven.VersionFacts.no_release_sp (v_core c) = true ->
+  preorder_laws Maven.Version.cmp a b c.
+Proof. intros a b c; exact (OrdMore.TPO_laws _ _ _ Maven.VersionFacts.cmp_tpo_B a b c). Qed.
+Print Assumptions C01_maven_no_release_word_or_sp.
+
+(* reflexivity and antisymmetry of maven hold everywhere *)
+Theorem C01_maven_refl_anti : forall a b : Maven.Version.ver,
+  Maven.Version.cmp a a = Eq /\ Maven.Version.cmp b a = CompOpp (Maven.Version.cmp a b).
+Proof. intros a b; split; [apply Maven.VersionFacts.cmp_refl|apply Maven.VersionFacts.cmp_anti]. Qed.
+Print Assumptions C01_maven_refl_anti.
+
+(* gem: added when its model is merged *)
